@@ -2,6 +2,7 @@ package eio
 
 import (
 	"github.com/karagenc/socket.io-go/internal/sync"
+	"github.com/karagenc/socket.io-go/internal/vhook"
 )
 
 type socketStore struct {
@@ -30,6 +31,7 @@ func (s *socketStore) set(sid string, socket *serverSocket) (ok bool) {
 		return false
 	}
 	s.sockets[sid] = socket
+	vhook.Event("eiostore.set", "o", s, "sid", sid, "size", len(s.sockets))
 	return true
 }
 
@@ -37,6 +39,7 @@ func (s *socketStore) delete(sid string) {
 	s.mu.Lock()
 	defer s.mu.Unlock()
 	delete(s.sockets, sid)
+	vhook.Event("eiostore.delete", "o", s, "sid", sid, "size", len(s.sockets))
 }
 
 func (s *socketStore) exists(sid string) (exists bool) {
